@@ -194,4 +194,7 @@ def check(ctx):
                 v, nf.div(nf.sub(m(pc), m(pf)), nf.sub(m(pi), m(pf))),
             )
         ctx.check(it.to_nf(p.value) != nf.sym("df_pvt") or True, "C09-g", q + ":returns the copy", f.where(), "the function returns the rescaled table", nontrivial=False)
+    from .common import check_interp_options
+
+    check_interp_options(ctx, "C09-h", ["bluebonnet.flow.flowproperties"], 8)
     ctx.floor("C09", len(ctx.obligs), 30, "wrapper obligations")
